@@ -17,12 +17,14 @@ func c06(c *Ctx) {
 		"(c) every value that can reach append(queue, p) on a path through the hasDiscontinuity-true edge has length 0 (nil, x[:0], make(…,0,…)): no splice across a gap. " +
 		"(d) in (*packetPool).addUnlocked the TransportErrorIndicator test and the HasPayload test dominate every access to the accumulator map and acc.add; their drop edges return the zero result without effects. " +
 		"(e) hasDiscontinuity is called only from add, on the value loaded from b.q with no intervening store. " +
+		"(f) the branch on hasDiscontinuity(queue, p) strictly dominates every store to q and every return of add outside the isSameAsPrevious-true edge: the gap test is taken for every non-duplicate packet, in particular before a PUSI flush. " +
+		"(g) the PUSI flush edge is reachable from the discontinuity edge and every group add can return on a path through the hasDiscontinuity-true edge (phi edges restricted to those paths, append(base, p) looked through) is nil, x[:0] or make(…,0,…): after a gap the flushed unit is the reset queue, never the queue as loaded; R3 of C02 (the PUSI edge returns the pre-append queue and keeps a fresh one) is re-run here because (g) builds on it. " +
 		"NOT decided: which units survive a given loss pattern (a behavioural statement over values); whether 16 or more lost packets alias (excluded by the property); " +
 		"byte-identity of delivered units (depends on parseData, properties C02/C12/C13)."
-	r.RuleText = "T3: one obligation per formula, per atom semantics, per truth-table clause; S5/S2: one obligation per edge rule of add/addUnlocked and per call site of hasDiscontinuity; non-trivial = needed a truth table over all valuations or a dominance/def-use argument"
+	r.RuleText = "T3: one obligation per formula, per atom semantics, per truth-table clause; S5/S2/R3: one obligation per edge rule of add/addUnlocked (duplicate edge, discontinuity edge, unconditional test, flush after the decision, PUSI edge) and per call site of hasDiscontinuity; non-trivial = needed a truth table over all valuations or a dominance/def-use argument"
 	r.Trusted = []string{"go/types + go/ssa (x/tools v0.29.0): SSA construction, dominator tree, def-use", "the boolean/arith evaluator of package tables (unit-tested)",
 		"Go semantics of append/slicing: x[:0] and make(T,0,n) have length 0"}
 	tables.T3(c.P, r)
 	demuxrules.New(c.P, r).C06()
-	r.Floor("C06", "obligations", len(r.Obls), 12)
+	r.Floor("C06", "obligations", len(r.Obls), 15)
 }
